@@ -640,7 +640,12 @@ func (x *Exec) havocForLoop(fr *Frame, st *State, li loopInfo) {
 		}
 	}
 	if li.heapAll {
+		was := st.havocked
 		x.havocHeap(st)
+		// the havoc at a loop head stands for earlier iterations, whose own writes
+		// are examined on the paths through the body; it is not a write of its own
+		st.havocked = was
+		st.loopHavoc = true
 	} else if li.heapWrite {
 		for _, pre := range li.prefixes {
 			for _, key := range st.heapKeys() {
